@@ -293,8 +293,6 @@ theorem flow_not_pRecycle {c : Cfg} {th th' : Th} (h : Flow c th th') (h1 : th.p
   all_goals (try (simp [e] at hPd))
 
 
-theorem Tail.logs {t : Tid} {S R : State} {th : Th} (h : Tail t S th R) : True := trivial
-
 theorem finish_logs {c : Cfg} {S R : State} {t : Tid} {th : Th} (h : finish c S t th = some R) :
     R.recLog = S.recLog ∧ R.pushLog = S.pushLog := by
   unfold finish at h
